@@ -76,13 +76,21 @@ def run(ctx):
     # --- how Rule.add files a key ------------------------------------------------
     simple_keys = None
     for p in Interp(prog, exc_edges=False).run(radd):
+        # the keys filed in `simple` are the ones on the path that appends
+        # there (either spelling: `if key in T: append` / `if key not in T:
+        # setattr; return`)
+        files = any(kind(c[2]) == 'attr' and c[2][2] == 'append' and
+                    c[2][1] == ('attr', selft, 'simple') for c in p.calls())
         for c, pol in p.cond:
-            if kind(c) == 'cmp' and c[1] == 'in' and c[2] == (
+            if kind(c) == 'cmp' and c[1] in ('in', 'not in') and c[2] == (
                     'param', radd.params()[1]):
                 from ..sym import try_py
                 ok, v = try_py(c[3])
-                if ok:
+                member = pol if c[1] == 'in' else not pol
+                if ok and files and member:
                     simple_keys = set(v)
+                elif ok and files and simple_keys is None:
+                    simple_keys = set()     # filed there: every OTHER key
     if simple_keys is None:
         raise AnalysisError('Rule.add: cannot find the tuple of generically '
                             'compared keys')
